@@ -432,13 +432,79 @@ def _task_limits(_):
         ('bad error name', lambda: M.ErrorMessage('a.1b', 1)),
         ('bad error name 2', lambda: M.ErrorMessage('a.b.', 1)),
     ]
+    # every name slot of every message type, each with a small set of
+    # strings the reference grammar rejects (the other fields are valid)
+    from mcx.ref import grammar as G
+    INVALID = {
+        'path': ('', 'a/b', '/a//b', '/a/', '/a.b', '//', '/a b'),
+        'member': ('', 'M.N', '1M', 'M-N', 'M N', 'M' * 256),
+        'interface': ('', 'nodots', 'a..b', '.a.b', 'a.b.', 'a.1b', 'a.b-c',
+                      'a.b c', 'a.b\n', 'a.' + 'b' * 254),
+        'destination': ('', 'nodots', 'a..b', '.a.b', 'a.b.', 'a.1b',
+                        'a.b c', 'a.b\n', 'a:b.c', ':', ':1', ':1..2',
+                        'a.' + 'b' * 254),
+        'error_name': ('', 'nodots', 'a..b', '.a.b', 'a.b.', 'a.1b', 'a.b-c',
+                       'a.b c', 'a.' + 'b' * 254),
+    }
+    KIND = {'path': 'validateObjectPath', 'member': 'validateMemberName',
+            'interface': 'validateInterfaceName',
+            'destination': 'validateBusName',
+            'error_name': 'validateErrorName'}
+    for slot, vals in INVALID.items():
+        for v in vals:
+            if G.VALIDATORS[KIND[slot]](v):
+                raise core.HarnessError('%r is a valid %s' % (v, slot))
+    BUILDERS = {
+        'call': (('path', 'member', 'interface', 'destination'),
+                 lambda k: M.MethodCallMessage(
+                     k.get('path', '/a'), k.get('member', 'M'),
+                     interface=k.get('interface', 'a.b'),
+                     destination=k.get('destination', 'a.b'))),
+        'call-min': (('path', 'member'),
+                     lambda k: M.MethodCallMessage(
+                         k.get('path', '/a'), k.get('member', 'M'))),
+        'return': (('destination',),
+                   lambda k: M.MethodReturnMessage(
+                       1, destination=k['destination'])),
+        'return-body': (('destination',),
+                        lambda k: M.MethodReturnMessage(
+                            1, destination=k['destination'], signature='s',
+                            body=['x'])),
+        'error': (('error_name', 'destination'),
+                  lambda k: M.ErrorMessage(
+                      k.get('error_name', 'a.b'), 1,
+                      destination=k.get('destination', 'a.b'))),
+        'error-min': (('error_name',),
+                      lambda k: M.ErrorMessage(k['error_name'], 1)),
+        'signal': (('path', 'member', 'interface', 'destination'),
+                   lambda k: M.SignalMessage(
+                       k.get('path', '/a'), k.get('member', 'M'),
+                       k.get('interface', 'a.b'),
+                       destination=k.get('destination', 'a.b'))),
+        'signal-min': (('path', 'member', 'interface'),
+                       lambda k: M.SignalMessage(
+                           k.get('path', '/a'), k.get('member', 'M'),
+                           k.get('interface', 'a.b'))),
+    }
+    for bname, (slots, build) in sorted(BUILDERS.items()):
+        build({s: {'path': '/a', 'member': 'M', 'interface': 'a.b',
+                   'destination': 'a.b', 'error_name': 'a.b'}[s]
+               for s in slots})      # the valid instance does construct
+        for slot in slots:
+            for v in INVALID[slot]:
+                bad.append(('bad %s %s=%r' % (slot, bname, v),
+                            (lambda build=build, slot=slot, v=v:
+                             build({slot: v}))))
     for name, f in bad:
         res.count('evaluations')
         res.count('transitions')
         res.count('states')
         try:
             f()
-            res.violation('%s/invalid-name/%s' % (PROP, name.split()[1]),
+            res.violation('%s/invalid-name/%s/%s' % (
+                              PROP, name.split()[1],
+                              name.split()[2].split('=')[0]
+                              if '=' in name else '-'),
                           '%s: a message was constructed' % name,
                           {'part': 'badname', 'name': name}, size=1)
         except MarshallingError:
